@@ -536,4 +536,33 @@ example :
     rw [UInt64.toNat_ofNat']
     exact Nat.mod_eq_of_lt (BkHas.unle8_lt _)
 
+/-- **C05 as stated, on the translated reader — no false negatives**: every signature added before sealing is reported
+    present (`true`, nil error) by the translated `Reader.Has` on the sealed file -/
+theorem gen_no_false_negative (xx : List UInt8 → UInt64) (h : BK.Sig → Nat) (m : BK.MetaKVs) (sigs : List BK.Sig)
+    (fuel : Nat) (hf : 2 ^ 32 ≤ fuel) (h64 : ∀ s, h s < 2 ^ 64) (hm : BK.metaOk .v2 m) (hn : sigs.length < 2 ^ 29)
+    (a b : UInt8) (rest : List UInt8) (hmem : (a :: b :: rest) ∈ sigs)
+    (hx : (xx (a :: b :: rest)).toNat = h (a :: b :: rest)) :
+    ∃ rdr, bkNewReader fuel (memRd (BK.encode .v2 m (BK.sealA .v2 (BK.putAll h sigs)))) = .ok (rdr, Go.Error.nil) ∧
+      bkReaderHas xx fuel rdr (a :: b :: rest) = .ok (true, Go.Error.nil) := by
+  obtain ⟨rdr, ho, hh⟩ := gen_has_on_sealed_of_count xx h m sigs fuel hf h64 hm hn a b rest hx
+  rw [_root_.C05.seal_has .v2 h sigs _ hmem] at hh
+  exact ⟨rdr, ho, hh⟩
+
+/-- **… and no invented positives**: if the translated `Reader.Has` answers `true` for a signature, a signature with
+    the same two-byte prefix and the same 64-bit hash was added -/
+theorem gen_positive_only_if (xx : List UInt8 → UInt64) (h : BK.Sig → Nat) (m : BK.MetaKVs) (sigs : List BK.Sig)
+    (fuel : Nat) (hf : 2 ^ 32 ≤ fuel) (h64 : ∀ s, h s < 2 ^ 64) (hm : BK.metaOk .v2 m) (hn : sigs.length < 2 ^ 29)
+    (a b : UInt8) (rest : List UInt8) (hx : (xx (a :: b :: rest)).toNat = h (a :: b :: rest))
+    (rdr : Bucketteer_Reader)
+    (ho : bkNewReader fuel (memRd (BK.encode .v2 m (BK.sealA .v2 (BK.putAll h sigs)))) = .ok (rdr, Go.Error.nil))
+    (e : Go.Error) (hyes : bkReaderHas xx fuel rdr (a :: b :: rest) = .ok (true, e)) :
+    ∃ s' ∈ sigs, BK.prefixOf s' = BK.prefixOf (a :: b :: rest) ∧ h s' = h (a :: b :: rest) := by
+  obtain ⟨rdr', ho', hh⟩ := gen_has_on_sealed_of_count xx h m sigs fuel hf h64 hm hn a b rest hx
+  rw [ho] at ho'
+  simp only [Except.ok.injEq, Prod.mk.injEq, and_true] at ho'
+  subst ho'
+  rw [hh] at hyes
+  simp only [Except.ok.injEq, Prod.mk.injEq] at hyes
+  exact _root_.C05.has_only_if .v2 h sigs _ hyes.1
+
 end GoTies.BkEnd
